@@ -67,6 +67,12 @@ def writable (h : Handle) : Except Nat Nat :=
   | none => .error EBADF
   | some i => .ok i
 
+def parseEnd (t : String) : Option End :=
+  match t.toList with
+  | 'f' :: r => (String.ofList r).toNat?.map .file
+  | 'p' :: r => (String.ofList r).toNat?.map .pipe
+  | _ => none
+
 def pipeLimit : Nat := 32768
 
 def parseBits (s : String) : Option (Bool × Bool × Bool × Bool × Bool) :=
@@ -98,7 +104,7 @@ def stepD (d : Driver) (s : St) (w : List String) : St × String :=
       | .error e => (s, s!"err {e}")
       | .ok (_, none) => (s, s!"err {ENOENT}")
       | .ok (_, some .dir) => (s, s!"err {EISDIR}")
-      | .ok (_, some (.fifo _)) => ({ s with pipes := insert s.pipes p ⟨[], true, true, true⟩ }, "ok")
+      | .ok (_, some (.fifo _)) => ({ s with pipes := insert s.pipes p ⟨[], true, true, true, 0, []⟩ }, "ok")
       -- a regular file opens, then `is_fifo` fails: InvalidInput "not a pipe"
       | .ok (_, some _) => (s, s!"err {EINVAL}")
     | none => (s, "bad-op")
@@ -140,7 +146,7 @@ def stepD (d : Driver) (s : St) (w : List String) : St × String :=
         | .error e => (s, s!"err {e}")
         | .ok (f, p, adv) =>
           let data := hugeRead lk cap (f.drop p)
-          (advancePos s h hd adv data.length, s!"ok {data.length} {data.length} {hexOf data}")
+          (advancePos s h hd adv data.length, s!"ok {data.length} {data.length} {hexOf (data.take 64)}")
     | _, _, _, _ => (s, "bad-op")
   | ["hpread", p, cap] =>
     match p.toNat?, cap.toNat?, lenOf .Read d with
@@ -150,10 +156,19 @@ def stepD (d : Driver) (s : St) (w : List String) : St × String :=
       | some pp =>
         if !pp.rOpen then (s, "closed") else
         if pp.buf.isEmpty ∧ (pp.wOpen ∨ pp.fifo) then (s, "wouldblock") else
-        let data := hugeRead lk cap pp.buf
-        ({ s with pipes := insert s.pipes p { pp with buf := pp.buf.drop data.length } },
-          s!"ok {data.length} {data.length} {hexOf data}")
+        let data := hugeRead lk cap (s.pipeBytes pp)
+        ({ s with pipes := insert s.pipes p (pp.pop data.length) },
+          s!"ok {data.length} {data.length} {hexOf (data.take 64)}")
     | _, _, _ => (s, "bad-op")
+  | ["splice", a, b, len, oi, oo] =>
+    match parseEnd a, parseEnd b, len.toNat?, optNat oi, optNat oo with
+    | some a, some b, some len, some oi, some oo =>
+      let (s', o) := s.splice d Gen.OpTable.spliceWaitPoll a b len oi oo
+      (s', match o with
+        | .ok n => s!"ok {n}"
+        | .err e => s!"err {e}"
+        | .answer t => t)
+    | _, _, _, _, _ => (s, "bad-op")
   | ["close", h] =>
     match h.toNat? with
     | some h =>
@@ -255,7 +270,7 @@ def stepD (d : Driver) (s : St) (w : List String) : St × String :=
       | .ok (_, _) => (s, s!"err {ENOENT}")
     else if st = "pipe" then
       match name.toNat? with
-      | some p => ({ s with pipes := insert s.pipes p ⟨[], true, true, false⟩ }, "ok")
+      | some p => ({ s with pipes := insert s.pipes p ⟨[], true, true, false, 0, []⟩ }, "ok")
       | none => (s, "bad-op")
     else (s, "bad-op")
   | ["rename", a, b] => let (s', o) := s.rename a b; (s', showOut o)
@@ -280,10 +295,10 @@ def stepD (d : Driver) (s : St) (w : List String) : St × String :=
         if !pp.wOpen then (s, "closed") else
         if !decide b.wf then (s, "panic") else
         let data := b.offeredBytes k
-        if pp.buf.length + data.length > pipeLimit then (s, "full") else
+        if pp.slots ≥ slotLimit ∨ pp.buf.length + data.length > pipeLimit then (s, "full") else
         if data.isEmpty then (s, "ok 0") else
         if !pp.rOpen ∧ !pp.fifo then (s, s!"err {EPIPE}") else
-        ({ s with pipes := insert s.pipes p { pp with buf := pp.buf ++ data } }, s!"ok {data.length}")
+        ({ s with pipes := insert s.pipes p (pp.push data) }, s!"ok {data.length}")
     | _, _, _ => (s, "bad-op")
   | ["pwritev", p, bufs] =>
     match p.toNat?, allSome ((listOf bufs).map parseWBuf), kindOf .WriteVectored d with
@@ -294,10 +309,10 @@ def stepD (d : Driver) (s : St) (w : List String) : St × String :=
         if !pp.wOpen then (s, "closed") else
         if !allWf bs then (s, "panic") else
         let data := offeredBytesVec k bs
-        if pp.buf.length + data.length > pipeLimit then (s, "full") else
+        if pp.slots ≥ slotLimit ∨ pp.buf.length + data.length > pipeLimit then (s, "full") else
         if data.isEmpty then (s, "ok 0") else
         if !pp.rOpen ∧ !pp.fifo then (s, s!"err {EPIPE}") else
-        ({ s with pipes := insert s.pipes p { pp with buf := pp.buf ++ data } }, s!"ok {data.length}")
+        ({ s with pipes := insert s.pipes p (pp.push data) }, s!"ok {data.length}")
     | _, _, _ => (s, "bad-op")
   | ["pread", p, buf] =>
     match p.toNat?, parseRBuf buf, kindOf .Read d with
@@ -308,8 +323,8 @@ def stepD (d : Driver) (s : St) (w : List String) : St × String :=
         if !pp.rOpen then (s, "closed") else
         if !decide b.wf then (s, "panic") else
         if pp.buf.isEmpty ∧ (pp.wOpen ∨ pp.fifo) then (s, "wouldblock") else
-        let (n, b') := readOp k b pp.buf 0
-        ({ s with pipes := insert s.pipes p { pp with buf := pp.buf.drop n } }, showRead n b')
+        let (n, b') := readOp k b (s.pipeBytes pp) 0
+        ({ s with pipes := insert s.pipes p (pp.pop n) }, showRead n b')
     | _, _, _ => (s, "bad-op")
   | ["preadv", p, bufs] =>
     match p.toNat?, allSome ((listOf bufs).map parseRBuf), kindOf .ReadVectored d with
@@ -320,8 +335,8 @@ def stepD (d : Driver) (s : St) (w : List String) : St × String :=
         if !pp.rOpen then (s, "closed") else
         if !allWf bs then (s, "panic") else
         if pp.buf.isEmpty ∧ (pp.wOpen ∨ pp.fifo) then (s, "wouldblock") else
-        let (n, bs') := readVecOp k bs pp.buf 0
-        ({ s with pipes := insert s.pipes p { pp with buf := pp.buf.drop n } }, showReadVec n bs')
+        let (n, bs') := readVecOp k bs (s.pipeBytes pp) 0
+        ({ s with pipes := insert s.pipes p (pp.pop n) }, showReadVec n bs')
     | _, _, _ => (s, "bad-op")
   -- sequential ops on a REGULAR file through `AsyncFd<std::fs::File>` (defect C08a): io_uring submits
   -- `Read`/`Write` with offset 0, the polling driver cannot register a regular file with epoll
